@@ -172,7 +172,7 @@ def gen_case(rng, nops, untrusted=False):
     return {"cfg": {"parents": parents, "start": start}, "ops": ops}
 
 
-def scripted_cases():
+def scripted_cases(long=True):
     """Well-behaved sync scenarios (also used as liveness support for C01)."""
     res = []
     # linear initial sync of 14 blocks, window of 10, then in sync, then a 2-deep reorg
@@ -191,6 +191,40 @@ def scripted_cases():
            ["block", 5, 1], ["block", 5, 1], ["process"], ["process"], ["headers", [[30, 5], [31, 30]]], ["process"],
            ["block", 30, 1], ["block", 31, 1], ["process"], ["process"], ["process"], ["headers", []], ["check"]]
     res.append({"cfg": {"parents": par, "start": 4}, "ops": ops})
+    if long:
+        res += long_cases()
+    return res
+
+
+def long_cases():
+    """Chains crossing the 1000-header file boundary of the block store: headers before the start block are
+    stored without their blocks, so one headers message builds the long prefix; then a reorganisation whose fork
+    point is below the boundary while the tip is above it, and a switch back to the first branch."""
+    res = []
+    for start, fork, tipn, flen, back in ((995, 997, 1004, 9, True), (1001, 998, 1003, 7, True), (990, 999, 1002, 4, False)):
+        main = list(range(1, tipn + 1))
+        par = [[i, i - 1] for i in main]
+        f0 = 2000
+        forkids = list(range(f0, f0 + flen))
+        par += [[forkids[0], fork]] + [[forkids[i], forkids[i - 1]] for i in range(1, flen)]
+        ext = list(range(tipn + 1, tipn + 4 + flen))
+        par += [[i, i - 1] for i in ext]
+        pmap = {a: b for a, b in par}
+        ops = [["version"], ["check"], ["headers", [[i, i - 1] for i in main]]]
+        for i in range(start, tipn + 1):
+            ops += [["block", i, 1], ["process"]]
+        ops += [["check"], ["headers", []], ["check"]]
+        ops += [["headers", [[i, pmap[i]] for i in forkids]], ["check"]]
+        for i in forkids:
+            ops += [["block", i, 1], ["process"]]
+        ops += [["check"], ["headers", []], ["check"]]
+        if back:
+            seg = list(range(fork + 1, tipn + 1)) + ext
+            ops += [["headers", [[i, pmap[i]] for i in seg]], ["check"]]
+            for i in seg:
+                ops += [["block", i, 1], ["process"]]
+            ops += [["check"], ["headers", []], ["check"], ["restartnode"], ["version"], ["check"]]
+        res.append({"cfg": {"parents": par, "start": start}, "ops": ops})
     return res
 
 
@@ -204,7 +238,7 @@ def make_cases(tier, rng, replay, untrusted=False, corpus="sync"):
             if f.endswith(".json"):
                 j = json.load(open(os.path.join(d, f)))
                 cases.append({"cfg": j["cfg"], "ops": j["ops"], "origin": "corpus/%s/%s" % (corpus, f)})
-    for c in scripted_cases():
+    for c in scripted_cases(long=not untrusted):
         c["origin"] = "scripted"
         cases.append(c)
     n = 200 if tier == "quick" else 3000
